@@ -154,15 +154,20 @@ class Column:
         """
         self._parent: set[Union[Path, Table, SubQuery]] = set()
         self.raw_name = escape_identifier_name(name)
-        self.source_columns = [
-            (
-                escape_identifier_name(raw_name),
-                escape_identifier_name(qualifier) if qualifier is not None else None,
-            )
-            for raw_name, qualifier in kwargs.pop(
-                "source_columns", ((self.raw_name, None),)
-            )
-        ]
+        # normalise each identifier exactly once: a second pass would fold the case of a quoted identifier
+        self.source_columns = (
+            [
+                (
+                    escape_identifier_name(raw_name),
+                    escape_identifier_name(qualifier)
+                    if qualifier is not None
+                    else None,
+                )
+                for raw_name, qualifier in kwargs.pop("source_columns")
+            ]
+            if "source_columns" in kwargs
+            else [(self.raw_name, None)]
+        )
         self.from_alias = kwargs.pop("from_alias", False)
 
     def __str__(self):
@@ -215,6 +220,7 @@ class Column:
             name: str, parent: Optional[Union[Path, Table, SubQuery]] = None
         ) -> Column:
             col = Column(name)
+            col.raw_name = name  # already normalised in source_columns
             if parent:
                 col.parent = parent
             return col
